@@ -6,7 +6,7 @@
    coap_io_prepare_io, ACK / RST branches of coap_dispatch). *)
 From LibcoapV Require Import Base.Tactics Sched.FixedPoint Sched.FixedPointProofs
   Sched.SendQueue Sched.SendQueueProofs Sched.Retransmit Sched.RetransmitProofs
-  Sched.RetransmitTimeProofs Sched.RetransmitSpacingProofs.
+  Sched.RetransmitTimeProofs Sched.RetransmitSpacingProofs Sched.RetransmitProvenanceProofs.
 From Coq Require Import Sorting.Permutation.
 Local Open Scope Z_scope.
 
@@ -221,6 +221,29 @@ Theorem C06_T_drawn_once : forall st s m b cfg r,
    RoSent m].
 Proof. exact (fun st s m b cfg r => eq_refl). Qed.
 Print Assumptions C06_T_drawn_once.
+
+(* Every datagram of every trace is the unchanged byte string of a submitted message, sent on the
+   session it was submitted on, scheduled with T = coap_calc_timeout(that session's settings, the
+   byte drawn at submission) - so (C06_timeout_range) every T of every trace lies in
+   [ACK_TIMEOUT, ACK_TIMEOUT * ACK_RANDOM_FACTOR] of its session, at Q.6 resolution. *)
+Theorem C06_tx_provenance : forall t0 evs t u s b c T,
+  In (RoTx t u s b c T) (snd (rt_run (rt_init t0) evs)) ->
+  exists m cfg r, In (RtSend s m b cfg r) evs /\ T = rt_cfg_T cfg r.
+Proof. exact rt_tx_provenance. Qed.
+Print Assumptions C06_tx_provenance.
+
+Theorem C06_tx_timeout_in_range : forall t0 evs t u s b c T,
+  (forall s' m b' cfg r, In (RtSend s' m b' cfg r) evs ->
+     fp_setting_ok (rc_at_ip cfg) (rc_at_fp cfg) /\ fp_setting_ok (rc_arf_ip cfg) (rc_arf_fp cfg) /\
+     0 <= r <= 255) ->
+  In (RoTx t u s b c T) (snd (rt_run (rt_init t0) evs)) ->
+  exists m cfg r, In (RtSend s m b cfg r) evs /\
+    fp_lo (fp_Q (rc_at_ip cfg) (rc_at_fp cfg)) <= T <=
+    fp_hi (fp_Q (rc_at_ip cfg) (rc_at_fp cfg)) (fp_Q (rc_arf_ip cfg) (rc_arf_fp cfg)) /\
+    fp_ms (rc_at_ip cfg) (rc_at_fp cfg) - 8 <= T /\
+    1000 * T <= (fp_ms (rc_at_ip cfg) (rc_at_fp cfg) + 8) * (fp_ms (rc_arf_ip cfg) (rc_arf_fp cfg) + 8) + 8313.
+Proof. exact rt_tx_timeout_in_range. Qed.
+Print Assumptions C06_tx_timeout_in_range.
 
 (* ---------------------------------------------------------------- one outcome *)
 (* For every event sequence - any number of messages and sessions, ACK / RST at any time,
